@@ -201,7 +201,23 @@ def gen_recipe(rng, n_files=None, defects=(), spicy=False, global_mode=None, git
             # aggregate: the file's own header contributes as well
             f["sources"].append({"carrier": "header", "copyrights": [f"{rng.randint(1990, 2024)} {rng.choice(HOLDERS)}"],
                                  "exprs": [gen_expr(rng, GOOD_IDS, [])], "toml_dir": ""})
+        # bodies that defeat caches keyed on name or content: same base name in another directory, byte-identical twins,
+        # and sizes around the checksum block (8192) and the header window (4096)
+        r = rng.random()
+        if r < 0.12:
+            f["body"] = "twin"
+        elif r < 0.24:
+            f["body"] = "big:" + str(rng.choice([4096, 8192, 8192 * 2, 8191, 8193, 4097, 20000]))
         files.append(f)
+        if rng.random() < 0.15 and "/" in path:
+            # a second file with the same base name elsewhere, with its own (different) information
+            base = path.rsplit("/", 1)[1]
+            other = "dup/" + base
+            if other not in used_names and global_mode != "dep5":
+                used_names.add(other)
+                files.append({"path": other, "kind": "text", "style": rng.choice(styles), "multi": False,
+                              "sources": [{"carrier": "header", "copyrights": [f"{rng.randint(1990, 2024)} Dup {rng.choice(HOLDERS)}"],
+                                           "exprs": [gen_expr(rng, GOOD_IDS, [])], "toml_dir": ""}]})
 
     recipe = {"files": files, "licenses": [], "global_mode": global_mode, "git": git, "defects": list(defects), "extra": []}
 
@@ -329,6 +345,12 @@ def build(recipe, root, styles=None):
         p.parent.mkdir(parents=True, exist_ok=True)
         header_src = [s for s in f["sources"] if s["carrier"] == "header"]
         body = f"code of {f['path']}\nmore code\n"
+        bspec = f.get("body", "")
+        if bspec == "twin":
+            body = "identical bytes in several files\nline two\n"
+        elif bspec.startswith("big:"):
+            body = body + "x" * 60 + "\n"
+            body = (body * (int(bspec[4:]) // len(body) + 1))[: int(bspec[4:])]
         if f["kind"] == "binary":
             p.write_bytes(BINARY_BLOB + b"\n# SPDX-License-Identifier: LicenseRef-inside-binary\n")
         else:
